@@ -84,8 +84,13 @@ class Gen:
     def cond(self, depth):
         r = self.rnd
         c = r.random()
-        if depth <= 0 or c < 0.45:
+        if depth <= 0 or c < 0.40:
             return '%s %s %s' % (self.expr(max(depth - 1, 0)), r.choice(self.CMP), self.expr(max(depth - 1, 0)))
+        if c < 0.5:
+            # a flat chain of 3..5 operands (one ast.BoolOp with several values)
+            n = r.randint(3, 5)
+            op = r.choice([' and ', ' or '])
+            return op.join('(%s)' % self.cond(0) for _ in range(n))
         if c < 0.6:
             return '(%s) and (%s)' % (self.cond(depth - 1), self.cond(depth - 1))
         if c < 0.75:
